@@ -239,6 +239,124 @@ proof fn lemma_rfc_type_roundtrip_rev(t: u16)
     assert(t <= 0x3FFFu16 ==> rfc_type(rfc_method_of(t), rfc_class_of(t)) == t) by (bit_vector);
 }
 
+
+// ---------------------------------------------------------------- message encoder (context.rs)
+//@item! stun_rs :: mod attributes > struct AttributeType
+impl Clone for AttributeType { fn clone(&self) -> (r: Self) ensures r == *self { *self } }
+impl Copy for AttributeType {}
+impl vstd::std_specs::convert::FromSpecImpl<AttributeType> for u16 {
+    open spec fn obeys_from_spec() -> bool { true }
+    open spec fn from_spec(v: AttributeType) -> Self { v.0 }
+}
+impl From<AttributeType> for u16 {
+//@item stun_rs :: mod attributes > impl From<AttributeType> for u16 > fn from
+//@spec
+    ensures r == val.0,
+//@end
+}
+impl AttributeType {
+//@item stun_rs :: mod attributes > impl AttributeType > fn new
+//@spec
+    ensures r.0 == attr_type,
+//@end
+//@item stun_rs :: mod attributes > impl AttributeType > fn as_u16
+//@spec
+    ensures r == self.0,
+//@end
+}
+
+//@item! stun_rs :: mod context > struct EncoderContext
+impl Clone for EncoderContext {
+//@item! stun_rs :: mod context > impl ::core::clone::Clone for EncoderContext > fn clone
+}
+impl EncoderContext {
+//@item stun_rs :: mod context > impl EncoderContext > fn padding
+//@spec
+    ensures r == 0,
+//@end
+}
+//@item! stun_rs :: mod context > struct AttributeEncoderContext
+impl<'a> AttributeEncoderContext<'a> {
+//@item stun_rs :: mod context > impl<'a> AttributeEncoderContext<'a> > fn new
+//@spec
+    ensures r.ctx == ctx, r.encoded_msg == encoded_msg, r.raw_value@ == old(raw_value)@,
+        final(raw_value)@ == final(r.raw_value)@,
+//@end
+}
+
+// The attribute is abstract in this unit. Its methods carry the *attribute contract*
+// (DESIGN.md section 6), which unit `attrs` discharges kind by kind.
+#[verifier::external_body]
+pub struct StunAttribute { _p: () }
+impl StunAttribute {
+    pub uninterp spec fn spec_type(&self) -> u16;
+    // value bytes produced by `encode` given the already encoded prefix
+    pub uninterp spec fn wire(&self, enc: Seq<u8>) -> Seq<u8>;
+    pub uninterp spec fn encodable(&self, enc: Seq<u8>) -> bool;
+    // value bytes after `post_encode` (identity for everything but integrity / fingerprint attributes)
+    pub uninterp spec fn post_wire(&self, enc: Seq<u8>, val: Seq<u8>) -> Seq<u8>;
+    pub uninterp spec fn post_ok(&self, enc: Seq<u8>, val: Seq<u8>) -> bool;
+
+    #[verifier::external_body]
+    pub fn attribute_type(&self) -> (r: AttributeType)
+        ensures r.0 == self.spec_type(),
+    { unimplemented!() }
+
+    #[verifier::external_body]
+    pub fn encode(&self, ctx: AttributeEncoderContext) -> (r: Result<usize, StunError>)
+        ensures
+            final(ctx.raw_value)@.len() == old(ctx.raw_value)@.len(),
+            r is Ok <==> self.encodable(ctx.encoded_msg@) && old(ctx.raw_value)@.len() >= self.wire(ctx.encoded_msg@).len(),
+            r is Ok ==> r->Ok_0 == self.wire(ctx.encoded_msg@).len()
+                && final(ctx.raw_value)@.subrange(0, r->Ok_0 as int) == self.wire(ctx.encoded_msg@)
+                && (forall|i: int| r->Ok_0 <= i < old(ctx.raw_value)@.len() ==> final(ctx.raw_value)@[i] == old(ctx.raw_value)@[i]),
+    { unimplemented!() }
+
+    #[verifier::external_body]
+    pub fn post_encode(&self, ctx: AttributeEncoderContext) -> (r: Result<(), StunError>)
+        ensures
+            final(ctx.raw_value)@.len() == old(ctx.raw_value)@.len(),
+            self.post_wire(ctx.encoded_msg@, old(ctx.raw_value)@).len() == old(ctx.raw_value)@.len(),
+            r is Ok <==> self.post_ok(ctx.encoded_msg@, old(ctx.raw_value)@),
+            r is Ok ==> final(ctx.raw_value)@ == self.post_wire(ctx.encoded_msg@, old(ctx.raw_value)@),
+    { unimplemented!() }
+}
+
+//@item! stun_rs :: mod message > struct StunMessage
+impl StunMessage {
+//@item stun_rs :: mod message > impl StunMessage > fn method
+//@spec
+    ensures r == self.method,
+//@end
+//@item stun_rs :: mod message > impl StunMessage > fn class
+//@spec
+    ensures r == self.class,
+//@end
+//@item stun_rs :: mod message > impl StunMessage > fn transaction_id
+//@spec
+    ensures *r == self.transaction_id,
+//@end
+//@item stun_rs :: mod message > impl StunMessage > fn attributes
+//@spec
+    ensures r@ == self.attributes@,
+//@end
+}
+
+//@item! stun_rs :: mod context > struct MessageEncoder
+impl MessageEncoder {
+//@item stun_rs :: mod context > impl MessageEncoder > fn encode
+//@tags C14 C01 C02 C04 C10
+//@rules R3
+//@spec
+    ensures final(buffer)@.len() == old(buffer)@.len(),
+//@loop 1
+    invariant
+        buffer@.len() == old(buffer)@.len(),
+        vx_s0@ == msg.attributes@,
+        position <= vx_s0@.len(),
+    decreases vx_s0@.len() - position,
+//@end
+}
 proof fn vx_sentinel() ensures false {}
 } // verus!
 fn main() {}
